@@ -119,6 +119,21 @@ fn judge_dt(rec: &mut Rec, i: i128, o: i32) {
                 Ok(Diff::Differs(g, e)) => rec.violation(format!("C10|datetime|as_offset|instant-not-moved-by-minus-offset|{}", cls), || wit(json!({"result_reads": g.to_json(), "independently_built_expected_reads": e.to_json()}))),
                 Err(p) => rec.violation(format!("C10|datetime|as_offset|result-unreadable|{},{}", p.class, p.site()), || wit(p.to_json())),
             }
+            // "moves the instant by minus the offset" holds whatever offset the receiver already carries — in
+            // particular the same one (an as_offset that returns early for an equal offset does not move it)
+            for o1 in [o, ((o as i64 * 7 + 12_345).rem_euclid(172_799) - 86_399) as i32] {
+                rec.api("DateTime::as_offset (receiver already carrying an offset)");
+                let y1 = trap(|| base.set_offset(Offset::Fixed(o1)).as_offset(Offset::Fixed(o)));
+                match y1 {
+                    Err(p) => rec.violation(format!("C10|datetime|as_offset-on-offset-value|panic|{},{}", p.class, p.site()), || wit(json!({"receiver_offset": o1, "panic": p.to_json()}))),
+                    Ok(y1) => match diff_with_expected(&y1, i - o as i128 * NS, o) {
+                        Ok(Diff::Skip) => rec.bin(SKIP_EXPECTED),
+                        Ok(Diff::Same) => {}
+                        Ok(Diff::Differs(g, e)) => rec.violation(format!("C10|datetime|as_offset-on-offset-value|instant-not-moved-by-minus-offset|receiver-offset-{}", if o1 == o { "equal" } else { "different" }), || wit(json!({"receiver_offset": o1, "result_reads": g.to_json(), "independently_built_expected_reads": e.to_json()}))),
+                        Err(p) => rec.violation(format!("C10|datetime|as_offset-on-offset-value|result-unreadable|{},{}", p.class, p.site()), || wit(p.to_json())),
+                    },
+                }
+            }
             if yoff != Offset::Fixed(o) || yg != bg {
                 rec.violation(format!("C10|datetime|as_offset|displayed-fields-changed|{}", cls), || wit(json!({"before": format!("{:?}", bg), "after": format!("{:?}", yg), "offset": format!("{:?}", yoff)})));
             }
@@ -184,6 +199,17 @@ fn judge_time(rec: &mut Rec, n: u64, o: i32) {
                 Ok(TDiff::Differs(g, e)) => Some(format!("result reads {:?}, independently built expected reads {:?}", g, e)),
                 Err(p) => Some(format!("unreadable: {}", p.msg)),
             };
+            for o1 in [o, ((o as i64 * 7 + 12_345).rem_euclid(172_799) - 86_399) as i32] {
+                rec.api("Time::as_offset (receiver already carrying an offset)");
+                match trap(|| base.set_offset(Offset::Fixed(o1)).as_offset(Offset::Fixed(o))) {
+                    Err(p) => rec.violation(format!("C10|time|as_offset-on-offset-value|panic|{},{}", p.class, p.site()), || wit(json!({"receiver_offset": o1, "panic": p.to_json()}))),
+                    Ok(y1) => match diff_time(&y1, en, o) {
+                        Ok(TDiff::Differs(g, e)) => rec.violation(format!("C10|time|as_offset-on-offset-value|time-not-moved-by-minus-offset|receiver-offset-{}", if o1 == o { "equal" } else { "different" }), || wit(json!({"receiver_offset": o1, "result_reads": format!("{:?}", g), "independently_built_expected_reads": format!("{:?}", e)}))),
+                        Err(p) => rec.violation(format!("C10|time|as_offset-on-offset-value|result-unreadable|{},{}", p.class, p.site()), || wit(p.to_json())),
+                        _ => {}
+                    },
+                }
+            }
             if moved.is_some() || yo != Offset::Fixed(o) || yg != bg {
                 rec.violation(format!("C10|time|as_offset|wrong|{}", cls), || wit(json!({"expected_as_nanos": en, "problem": moved, "fields_before": format!("{:?}", bg), "fields_after": format!("{:?}", yg)})));
             }
